@@ -95,6 +95,9 @@ Definition list_cmp_g (k : list_kind) (l1 l2 : list prim) : comparison :=
   | ListZip => cmp_zip prim_cmp (isort prim_cmp l1) (isort prim_cmp l2)
   end.
 
+(* ---- object_path_component_cmp ---- *)
+Inductive step_kind := IndexBeforeKey | StepsAsText.
+
 (* ---- within_cmp ---- *)
 Inductive within_kind := WithinExact | WithinTruncated.
 Definition within_cmp_g (k : within_kind) (m1 : Z) (e1 : N) (m2 : Z) (e2 : N) : comparison :=
